@@ -35,6 +35,10 @@ func main() {
 		err = rerun(os.Args[2:])
 	case "selftest":
 		err = selftest()
+	case "values":
+		err = values(os.Args[2:])
+	case "gen":
+		err = gen(os.Args[2:])
 	case "child":
 		err = child(os.Args[2:])
 	case "conc":
